@@ -76,11 +76,11 @@ void lemma_window_put(void)
     __CPROVER_assume(off <= 31 && bits >= 1 && bits <= 64);
     unsigned nq = VP_NQ(off, bits);
     __CPROVER_assume(i < 4u * nq);
-    uint8_t old[12];
-    const uint8_t *p = old - 4u * q;
+    uint8_t *p = malloc(4u * (q + nq));
+    __CPROVER_assume(p != NULL);
     vp_u128 wold = VP_WINDOW(p, q, nq);
     vp_u128 wnew = VP_WPUT(wold, off, bits, v);
-    __CPROVER_assert(VP_WBYTE(wnew, i) == vp_put_byte(old[i], 4u * q + i, 32u * q + off, bits, v),
+    __CPROVER_assert(VP_WBYTE(wnew, i) == vp_put_byte(p[4u * q + i], 4u * q + i, 32u * q + off, bits, v),
                      "L3: window write == byte-form write");
     VP_CANARY();
 }
